@@ -9,6 +9,7 @@ rm -rf "$WT"; mkdir -p ${SEEDRUN:-/tmp/seedrun}
 git -C /repo worktree add -q --detach "$WT" HEAD || exit 3
 cd "$WT"
 if ! git apply "$PATCH"; then echo "RESULT $TAG patch-does-not-apply"; git -C /repo worktree remove --force "$WT"; exit 3; fi
+export PYO3_PYTHON=/opt/veriftools/pyvenv/bin/python
 T=$(cargo test --workspace --no-fail-fast --offline 2>&1 | grep -E "^test result" | awk '{p+=$4; f+=$6} END {print p" passed "f" failed"}')
 echo "RESULT $TAG baseline-tests: $T"
 export VERIF_REPO="$WT" VERIF_ALT_DIR=${SEEDRUN:-/tmp/seedrun}/alt-$TAG
